@@ -9,6 +9,7 @@ package main
 
 import (
 	"bytes"
+	"fmt"
 	"io"
 	"net/http"
 	"net/http/httptest"
@@ -205,6 +206,103 @@ func genReqShapes(ctx *hx.Ctx, emit func(hx.Case)) {
 			c := mkCase(required, jsonC, "application/json", "", false)
 			c["emptyReader"] = true
 			emit(c06WithShape(c, kind))
+		}
+	}
+}
+
+// ---------------------------------------------------------------- the decoder registry as state
+
+var c06DecoderByKind = map[string]openapi3filter.BodyDecoder{
+	"json": openapi3filter.JSONBodyDecoder, "plain": openapi3filter.PlainBodyDecoder,
+	"file": openapi3filter.FileBodyDecoder, "urlencoded": openapi3filter.UrlencodedBodyDecoder,
+}
+
+// c06ApplyRegOps performs the history of Register/Unregister calls and returns the function that puts every touched
+// key back to what it was
+func c06ApplyRegOps(ops []any) func() {
+	type saved struct {
+		key string
+		dec openapi3filter.BodyDecoder
+	}
+	var undo []saved
+	seen := map[string]bool{}
+	for _, o := range ops {
+		l := jlist(o)
+		if len(l) < 2 {
+			continue
+		}
+		op, key := fmt.Sprint(l[0]), fmt.Sprint(l[1])
+		if !seen[key] {
+			seen[key] = true
+			undo = append(undo, saved{key, openapi3filter.RegisteredBodyDecoder(key)})
+		}
+		switch op {
+		case "unregister":
+			openapi3filter.UnregisterBodyDecoder(key)
+		case "register":
+			if len(l) == 3 {
+				if d := c06DecoderByKind[fmt.Sprint(l[2])]; d != nil {
+					openapi3filter.RegisterBodyDecoder(key, d)
+				}
+			}
+		}
+	}
+	return func() {
+		for _, u := range undo {
+			if u.dec != nil {
+				openapi3filter.RegisterBodyDecoder(u.key, u.dec)
+			} else {
+				openapi3filter.UnregisterBodyDecoder(u.key)
+			}
+		}
+	}
+}
+
+// (H) registry histories × bodies: every history of ≤ 2 operations over 3 keys and 3 decoder kinds, then the body is
+// validated under the JSON and the text/plain header (and one undeclared custom type)
+func genRegistry(ctx *hx.Ctx, emit func(hx.Case)) {
+	keys := []string{"application/json", "text/plain", "application/x-custom"}
+	kinds := []string{"json", "plain", "urlencoded"}
+	var single [][]any
+	for _, k := range keys {
+		single = append(single, []any{"unregister", k})
+		for _, d := range kinds {
+			single = append(single, []any{"register", k, d})
+		}
+	}
+	var hist [][]any
+	for _, a := range single {
+		hist = append(hist, []any{a})
+	}
+	n := 40
+	if ctx.Thorough() {
+		n = 144
+	}
+	for i := 0; i < n; i++ { // two-step histories: a seeded sample in quick, all 144 in thorough
+		var a, b []any
+		if ctx.Thorough() {
+			a, b = single[i/len(single)], single[i%len(single)]
+		} else {
+			a, b = hx.Pick(ctx.Rng, single), hx.Pick(ctx.Rng, single)
+		}
+		hist = append(hist, []any{a, b})
+	}
+	obj := sch("ty", "object", "props", []any{[]any{"a", sch("ty", "integer")}}, "required", []any{"a"})
+	str := sch("ty", "string", "minLen", 4)
+	content := []any{mtEntry("application/json", obj), mtEntry("text/plain", str), mtEntry("application/x-custom", obj)}
+	type sit struct{ ct, text string }
+	sits := []sit{{"application/json", `{"a":1}`}, {"application/json", `{"a":"x"}`}, {"text/plain", `{"a":1}`}, {"text/plain", `a=1`},
+		{"application/x-custom; v=1", `{"a":1}`}, {"application/x-custom", `a=1`}}
+	for hi, h := range hist {
+		for si, s := range sits {
+			if len(h) == 2 && (hi+si)%2 == 1 { // half of the situations for the two-step histories
+				continue
+			}
+			c := mkCase(true, content, s.ct, s.text, false)
+			ops := make([]any, len(h))
+			copy(ops, h)
+			c["regOps"] = ops
+			emit(c)
 		}
 	}
 }
